@@ -282,10 +282,13 @@ func (fr *Frame) onAcquire(id Term, write bool, pos token.Pos) {
 func (fr *Frame) onRelease(id Term, write bool, pos token.Pos) {
 	arg := fr.curLockArg
 	fr.curLockArg = nil
+	obj, n, field := fr.lockOwner(arg)
+	if field != "" {
+		fr.anchorAsserts("unlock", field, pos, nil)
+	}
 	if !write {
 		return
 	}
-	obj, n, field := fr.lockOwner(arg)
 	for i, li := range fr.lockInvs(n, field) {
 		t, err := fr.evalSpecBool(li.Clause.Expr, fr.lockInvEnv(obj, n))
 		if err != nil {
